@@ -370,25 +370,40 @@ var _ = fmt.Sprint
 func init() {
 	extraIntrinsics = append(extraIntrinsics, func(p *Program) {
 		mk := func(ex *Exec, fr *Frame, args []Value) Value {
-			if args[0] != nil {
-				if opts, ok := args[0].([]Value); ok && len(opts) > 0 {
-					ex.unsupported("chanqueue.New with options")
-				}
-			}
 			pt := fr.fn.Signature.Results().At(0).Type()
 			st := deref(pt)
 			q := zero(st).(Struct)
+			ex.setField(q, st, "capacity", mkConst(64, ^uint64(0)))
+			var cell Value = q
+			// options are closures over *ChanQueue: run them (WithCapacity bounds
+			// the queue, WithBaseCapacity only pre-sizes it)
+			if args[0] != nil {
+				if opts, ok := args[0].([]Value); ok {
+					for _, o := range opts {
+						ex.call(fr, fr.callPos, o, []Value{&cell})
+					}
+				}
+			}
+			q = cell.(Struct)
+			if in := ex.getField(q, st, "input"); in != nil {
+				if c, ok := in.(*Chan); ok && c != nil {
+					ex.unsupported("chanqueue.New with a caller-supplied channel")
+				}
+			}
+			capacity := 1 << 30
+			if c, ok := ex.getField(q, st, "capacity").(*Term); ok && c.IsConst() && int64(c.val) > 0 {
+				capacity = int(int64(c.val)) // exactly this many items are buffered; then In() blocks
+			}
 			var elem types.Type
 			if ta := fr.fn.TypeArgs(); len(ta) > 0 {
 				elem = ta[0]
 			}
 			ex.nextChanID++
-			ch := &Chan{id: ex.nextChanID, cap: 1 << 30, elemT: elem}
+			ch := &Chan{id: ex.nextChanID, cap: capacity, elemT: elem}
 			ex.setField(q, st, "input", ch)
 			ex.setField(q, st, "inRdWr", ch)
 			ex.setField(q, st, "output", ch)
-			ex.setField(q, st, "capacity", mkConst(64, ^uint64(0)))
-			var cell Value = q
+			cell = q
 			return &cell
 		}
 		p.reg("github.com/gammazero/chanqueue.New", mk)
